@@ -4,11 +4,13 @@
 #   file     path below $ACRA_REPO               cls      class name in that file
 #   lean     module under Acra.Gen.Src.Cls        fields   {attribute: "int" | "bytes" | "bool"} type overrides
 #   methods  [dict(func=method name, name=lean def name (default func), params={parameter: "int" | "bytes" | "bool" |
-#             "self" (an object of the same class)}, prop=…, theorem=…)]; annotated int / bytes parameters need no entry
+#             "self" (an object of the same class)}, prop=…, theorem=…, also=[(prop, theorem), …] further properties
+#             with a theorem about the same translated method)]; annotated int / bytes parameters need no entry
 METHODS = [
   dict(file="AcraNetwork/iNetX.py", cls="iNetX", lean="iNetX", methods=[
-      dict(func="pack", prop="C01", theorem="src_iNetX_pack"),
-      dict(func="unpack", prop="C01", theorem="src_iNetX_unpack"),
+      dict(func="pack", prop="C01", theorem="src_iNetX_pack", also=[("C13", "src_iNetX_pack_idempotent")]),
+      dict(func="unpack", prop="C01", theorem="src_iNetX_unpack",
+           also=[("C09", "src_iNetX_accepts_iff"), ("C13", "src_iNetX_unpack_state_independent")]),
       dict(func="__eq__", params={"other": "self"}, prop="C14", theorem="src_iNetX_eq"),
   ]),
 ]
